@@ -521,6 +521,7 @@ func use(b []byte) int {
 }`, func(fr *core.Result, fprog *core.Program, fpk *packages.Package) { checkNilResults(fr, fprog, fpk) })
 	checkLazyBitAgreement(r, prog, prog.Pkg(""), lp, r.Tier == "thorough")
 	checkLengthDelimitedSlices(r, prog, lp)
+	checkLazyMisc(r, prog, lp)
 	nf2 := checkFoundGuards(r, prog, lp)
 	r.Floor("uses of binary-search positions", nf2, 6)
 	ns2 := checkLazySorted(r, prog, lp)
